@@ -237,6 +237,7 @@ func (f *fNatsServer) Serve() error {
 	done <- f.drainNatsMessages(subscriptions)
 
 	// drain in-queue and workers
+	verifYield("natsserver.serve.drained", verifServerID(f))
 	close(f.workC)
 	wg.Wait()
 	logger().Debug(`frugal: workers completed`)
@@ -252,6 +253,7 @@ func (f *fNatsServer) drainNatsMessages(subs []*nats.Subscription) error {
 	log := logger()
 
 	// remove each nats subscription (allow completion of requests)
+	verifYield("natsserver.drain.begin", verifServerID(f))
 	for _, sub := range subs {
 		if err := sub.Drain(); err != nil {
 			return err
@@ -259,6 +261,7 @@ func (f *fNatsServer) drainNatsMessages(subs []*nats.Subscription) error {
 	}
 	log.Debug(`frugal: subscriptions removed`)
 
+	verifYield("natsserver.drain.unsubscribed", verifServerID(f))
 	// push subscription removals to the nats server
 	// technically, sub.Drain called `kickFlusher`, but this explicitly waits for the PONG
 	if err := f.conn.Flush(); err != nil {
@@ -269,11 +272,13 @@ func (f *fNatsServer) drainNatsMessages(subs []*nats.Subscription) error {
 	// drain in-subscription queue of messages
 	// Waiting for ALL frugal subscriptions to catch up (not super awesome)
 	// The alternative is a spin-lock waiting for each subscription to become invalid (sub.IsValid)
+	verifYield("natsserver.drain.flushed", verifServerID(f))
 	start := time.Now()
 	barrier := make(chan struct{})
 	if err := f.conn.Barrier(func() { close(barrier) }); err != nil {
 		return err
 	}
+	verifYield("natsserver.drain.barrier", verifServerID(f))
 	<-barrier
 	log.WithField(`took`, time.Since(start)).Debug(`frugal: subscription queues drained`)
 	return nil
